@@ -53,6 +53,41 @@ LIFETIMES = [1.0, 2.0, 30.0]
 DOCUMENTED = {"idem": (2, 30.0), "nonidem": (0, 30.0), "conn": (0, 1.0)}
 
 
+def frame_starts(gen: int, tr):
+    """Every frame the client started to put on this connection's wire, however its writes were cut:
+    [(t, header bytes, (type, data) | None if the frame is incomplete)].  A start is recognised at each position where
+    the previous frame ended (the byte stream of one connection is a sequence of frames, the last possibly partial)."""
+    hlen = refproto.header_len(gen)
+    data = tr.tx_bytes()
+    offs, pos = [], 0
+    for t, b in tr.writes:
+        offs.append((pos, t))
+        pos += len(b)
+
+    def t_at(off):
+        k = 0
+        while k + 1 < len(offs) and offs[k + 1][0] <= off:
+            k += 1
+        return offs[k][1] if offs else None
+    out, i = [], 0
+    while i + hlen <= len(data):
+        hb = data[i:i + hlen]
+        if gen == 4:
+            ln = (hb[6] << 8) | hb[7]
+            mt = hb[5]
+        else:
+            ln = (hb[18] << 8) | hb[19]
+            mt = hb[17]
+        end = i + hlen + ln + 2
+        if end <= len(data):
+            out.append((t_at(i), hb, (mt, data[i + hlen:i + hlen + ln])))
+            i = end
+        else:
+            out.append((t_at(i), hb, None))
+            break
+    return out
+
+
 # =============================================================================== (a) socket layer
 
 
@@ -181,7 +216,7 @@ def run_sock(case, stats: Stats | None):
                     r_doc, l_doc = op[2], op[3]
                     policy = sockops.policy_of([op[2], op[3]])
                 rec = {"pid": pid, "a": loop.time(), "r": r_doc, "L": l_doc, "hb": full[:hlen], "full": full, "tracked": op[1] == "T",
-                       "down_at_accept": not rig.sock.is_connected}
+                       "down_at_accept": not rig.sock.is_connected, "logpos": len(net.log)}
                 msgs.append(rec)
                 if rec["tracked"]:
                     tracked = rec
@@ -243,11 +278,14 @@ def run_sock(case, stats: Stats | None):
         starts = {m["pid"]: [] for m in msgs}
         completes = {}
         fault_times = [e[0] for e in net.log if e[1] == "write_fault"]
+        complete_at = {}   # pid -> [(t, cid)] of complete frames
         for tr in net.conns:
-            for t, b in tr.writes:
-                m = by_hdr.get(b)
+            for t, hb, content in frame_starts(gen, tr):
+                m = by_hdr.get(hb)
                 if m is not None:
                     starts[m["pid"]].append((t, tr.cid))
+                    if content is not None:
+                        complete_at.setdefault(m["pid"], []).append((t, tr.cid))
             pr = refproto.parse_stream(gen, tr.tx_bytes())
             for k, fr in enumerate(pr.frames):
                 completes.setdefault(tr.cid, []).append(fr.pid)
@@ -271,7 +309,7 @@ def run_sock(case, stats: Stats | None):
                 nt = True
             # positive half: exactly one fault hit the tracked message
             t_faults = [e for e in net.log if e[1] == "write_fault"]
-            hit = _faults_hitting(net, tracked, msgs)
+            hit = _faults_hitting(net, tracked, msgs, complete_at)
             if hit:
                 classes.append("fault-hit-tracked")
                 nt = True
@@ -305,36 +343,39 @@ def run_sock(case, stats: Stats | None):
         rig.dispose()
 
 
-def _faults_hitting(net, m, msgs):
-    """Write faults that hit a write of message m: the fault event follows a write of m's header on the same
-    connection in the same instant (2nd/3rd write), or precedes any write while m is the head of the queue."""
+def _faults_hitting(net, m, msgs, complete_at, gen=None):
+    """Write faults that hit message m, independent of how the client cuts a frame into write calls.  The network log
+    is replayed in order: at the position of the fault, m had been submitted, no complete frame of m was on any wire
+    yet, and every message submitted before m either had a complete frame on a wire or had expired - so m was the one
+    being written.  (Conservative: an earlier message that was dropped for good hides later hits.)"""
     out = []
-    for tr in net.conns:
-        evs = [e for e in net.log if len(e) > 2 and e[2] == tr.cid and e[1] in ("tx", "write_fault")]
-        for i, e in enumerate(evs):
-            if e[1] != "write_fault":
+    bufs: dict = {}
+    hdr_of = {x["hb"]: x for x in msgs}
+    done: set = set()
+
+    def refresh(cid):
+        data, i = bytes(bufs[cid]), 0
+        hlen = len(m["hb"])
+        while i + hlen <= len(data):
+            hb = data[i:i + hlen]
+            ln = ((hb[6] << 8) | hb[7]) if hlen == 8 else ((hb[18] << 8) | hb[19])
+            end = i + hlen + ln + 2
+            if end > len(data):
+                break
+            x = hdr_of.get(hb)
+            if x is not None:
+                done.add(x["pid"])
+            i = end
+    for pos, e in enumerate(net.log):
+        if e[1] == "tx":
+            bufs.setdefault(e[2], bytearray()).extend(e[3])
+            refresh(e[2])
+        elif e[1] == "write_fault":
+            t_f, cid = e[0], e[2]
+            if m["logpos"] > pos or t_f >= m["a"] + m["L"] or m["pid"] in done:
                 continue
-            # find the preceding tx in the same instant: if it is m's header (or payload right after m's header) the fault is m's
-            j = i - 1
-            seq = []
-            while j >= 0 and evs[j][0] == e[0] and evs[j][1] == "tx":
-                seq.append(evs[j][3])
-                j -= 1
-            seq.reverse()
-            # writes of the frame in progress: walk back to the last header
-            hdrs = {x["hb"]: x for x in msgs}
-            cur = None
-            k = 0
-            count = 0
-            for b in seq:
-                if b in hdrs:
-                    cur, count = hdrs[b], 1
-                elif cur is not None:
-                    count += 1
-                    if count == 3:
-                        cur, count = None, 0
-            if cur is m:
-                out.append((e[0], tr.cid))
+            if all(x["pid"] in done or t_f >= x["a"] + x["L"] for x in msgs if x["logpos"] <= pos and x["pid"] < m["pid"]):
+                out.append((t_f, cid))
     return out
 
 
@@ -512,29 +553,14 @@ def run_api(case, stats: Stats | None):
         rig.net.heal()
         rig.loop.advance(40.0)
         # ---- attribute frame starts (header writes) after init to identities (header bytes incl. packet id)
-        hlen = refproto.header_len(gen)
         ident = {}     # header bytes -> list of (t, cid)
         content_of = {}
         for tr in rig.net.conns:
-            ws = tr.writes
-            i = 0
-            while i < len(ws):
-                t, b = ws[i]
-                if len(b) == hlen and (b[:2] == b"\x55\x55"):
-                    if gen == 4:
-                        to, frm, pid, mt, ln = b[2], b[3], b[4], b[5], (b[6] << 8) | b[7]
-                    else:
-                        to, frm, pid, mt, ln = b[14], b[15], b[16], b[17], (b[18] << 8) | b[19]
-                    data = None
-                    if ln == 0:
-                        data = b""
-                    elif i + 1 < len(ws) and len(ws[i + 1][1]) == ln and ws[i + 1][0] == t:
-                        data = ws[i + 1][1]
-                    if t >= t_start:
-                        ident.setdefault(b, []).append((t, tr.cid))
-                        if data is not None:
-                            content_of[b] = (mt, data)
-                i += 1
+            for t, hb, content in frame_starts(gen, tr):
+                if t is not None and t >= t_start:
+                    ident.setdefault(bytes(hb), []).append((t, tr.cid))
+                    if content is not None:
+                        content_of[bytes(hb)] = (content[0], bytes(content[1]))
         # ---- judge
         classes = [f"gen{gen}"] + (["long-outage"] if ["default", "refuse"] in case["ops"] else [])
         nt = False
@@ -586,7 +612,7 @@ def run_api(case, stats: Stats | None):
         # => that command is re-sent first on the next connection (before the refresh requests)
         if len(faults) == 1:
             for m in cmds:
-                if m["cls"] == "idempotent" and m["armed"] and faults[0][0] == m["a"]:
+                if m["cls"] == "idempotent" and m["armed"] and faults[0][0] == m["a"] and not _complete_on(rig, gen, m, inst, state):
                     opens = [e for e in rig.net.log if e[1] == "open" and e[0] >= m["a"] and e[2] > m["cid"]]
                     if opens and opens[0][0] < m["a"] + m["L"]:
                         tr2 = rig.net.conns[opens[0][2]]
@@ -611,6 +637,26 @@ def run_api(case, stats: Stats | None):
         rig.dispose()
 
 
+def _complete_on(rig, gen, m, inst, state) -> bool:
+    """True if the command's frame went out complete on the connection it was submitted on (then the armed write
+    fault hit a later write, not this command - whatever the client's write granularity)."""
+    if m["cid"] is None:
+        return False
+    tr = rig.net.conns[m["cid"]]
+    for t, _hb, content in frame_starts(gen, tr):
+        if content is None or t is None or t < m["a"]:
+            continue
+        if m["content"] is not None:
+            if (content[0], bytes(content[1])) == m["content"]:
+                return True
+        else:
+            exp = cmdref.expected(inst, state, m["op"][2])
+            fr = refproto.parse_all(gen, refproto.frame(gen, 0x80, 0xB0, 0, content[0], bytes(content[1])))[0]
+            if exp[0] == "frame" and not cmdref.judge_frame(gen, exp, fr):
+                return True
+    return False
+
+
 def shards(tier: str):
     n, reps = (500, 4) if tier == "quick" else (4000, 8)
     out = []
@@ -623,7 +669,7 @@ def shards(tier: str):
 
 def floors(tier: str):
     return {"fault-hit-tracked": 100, "accepted-while-down": 100, "resent-first": 30, "open-at-deadline": 5,
-            "open-just-before-deadline": 5, "open-just-after-deadline": 5, "toggle-on-wire": 50, "retried": 30,
+            "open-just-before-deadline": 5, "open-just-after-deadline": 5, "toggle-on-wire": 50,
             "error-request-on-wire": 30, "reconnect-near-deadline-after-fault": 40, "long-outage": 150, "flush-stalled-by-backpressure": 100}
 
 
